@@ -83,6 +83,8 @@ Theorem C10_requirement_eq_equivalence : (forall a, ReqModel.req_eq a a = true) 
 Proof. exact C08.C08_eq_equivalence. Qed.
 Print Assumptions C10_requirement_eq_equivalence.
 Theorem C10_requirement_hash {H : Type} (hash : ReqModel.rq_key -> H) a b : ReqModel.req_eq a b = true -> hash (ReqModel.req_key a) = hash (ReqModel.req_key b).
+
+Theorem C10_requirement_hash {H : Type} (hash : ReqEqP.rq_key -> H) a b : ReqModel.req_eq a b = true -> hash (ReqEqP.req_key a) = hash (ReqEqP.req_key b).
 Proof. exact (C08.C08_hash_respects_eq hash a b). Qed.
 Print Assumptions C10_requirement_hash.
 (* Tag: equality is equality of the three lower-cased fields (case-insensitive), for any stored hash function *)
@@ -91,3 +93,45 @@ Theorem C10_tag_eq_is_field_eq h i a p i' a' p' :
   VMeaning.py_lower i = VMeaning.py_lower i' /\ VMeaning.py_lower a = VMeaning.py_lower a' /\ VMeaning.py_lower p = VMeaning.py_lower p'.
 Proof. exact (C14.C14_tag_case_insensitive h i a p i' a' p'). Qed.
 Print Assumptions C10_tag_eq_is_field_eq.
+<<<<<<< HEAD
+=======
+
+(* ---------------- SpecifierSet ---------------- *)
+(* Model SetsModel: __eq__ = equality of the member frozensets (set_eqb), __hash__ = hash(self._specs).  fs_ok = "no two equal members",
+   established by every constructor and by & (C05_constructor_invariant).  Proofs in Sets/SetsEqual.v. *)
+Require SetsModel SetsFs SetsEqual.
+Theorem C10_set_eq_equivalence A B C : SetsFs.fs_ok (SetsModel.ms A) -> SetsFs.fs_ok (SetsModel.ms B) -> SetsFs.fs_ok (SetsModel.ms C) ->
+  SetsModel.set_eqb A A = true /\ SetsModel.set_eqb A B = SetsModel.set_eqb B A /\
+  (SetsModel.set_eqb A B = true -> SetsModel.set_eqb B C = true -> SetsModel.set_eqb A C = true).
+Proof.
+  intros HA HB HC. split; [apply SetsEqual.set_eqb_refl|]. split; [now apply SetsEqual.set_eqb_symmetric|]. now apply SetsEqual.set_eqb_trans.
+Qed.
+Print Assumptions C10_set_eq_equivalence.
+(* == holds exactly when the canonical keys of the members are permutations of each other; so every order-independent function of
+   the keys (the hash of the frozenset) agrees on equal sets *)
+Theorem C10_set_eq_is_same_keys A B : SetsFs.fs_ok (SetsModel.ms A) -> SetsFs.fs_ok (SetsModel.ms B) ->
+  (SetsModel.set_eqb A B = true <-> Permutation.Permutation (SetsEqual.keys A) (SetsEqual.keys B)).
+Proof. exact (SetsEqual.set_eqb_keys A B). Qed.
+Print Assumptions C10_set_eq_is_same_keys.
+Theorem C10_set_hash {H : Type} (h : list (oper * str) -> H) A B : (forall l l', Permutation.Permutation l l' -> h l = h l') ->
+  SetsFs.fs_ok (SetsModel.ms A) -> SetsFs.fs_ok (SetsModel.ms B) -> SetsModel.set_eqb A B = true -> h (SetsEqual.keys A) = h (SetsEqual.keys B).
+Proof. exact (SetsEqual.set_eqb_hash h A B). Qed.
+Print Assumptions C10_set_hash.
+(* equal sets match and filter alike and report the same .prereleases - given the same override (== ignores it by documented design)
+   and members that are constructor-built and carry no override of their own (every set built from a text) *)
+Theorem C10_equal_sets_match_alike A B : SetsModel.set_eqb A B = true -> SetsFs.fs_ok (SetsModel.ms A) -> SetsFs.fs_ok (SetsModel.ms B) ->
+  SetsModel.ov A = SetsModel.ov B -> SetsEqual.all_built A -> SetsEqual.all_built B -> SetsEqual.plain A -> SetsEqual.plain B ->
+  (forall arg inst item, SetsModel.set_contains A arg inst item = SetsModel.set_contains B arg inst item) /\
+  (forall arg texts, SetsModel.set_filter A arg texts = SetsModel.set_filter B arg texts) /\
+  SetsModel.set_pre A = SetsModel.set_pre B.
+Proof.
+  intros. split; [|split]; intros; [apply SetsEqual.equal_sets_same_contains | apply SetsEqual.equal_sets_same_filter | apply SetsEqual.equal_sets_same_prereleases]; assumption.
+Qed.
+Print Assumptions C10_equal_sets_match_alike.
+Theorem C10_equal_text_sets_match_alike a b p A B : SetsModel.SpecifierSet a p = Some A -> SetsModel.SpecifierSet b p = Some B ->
+  SetsModel.set_eqb A B = true ->
+  (forall arg inst item, SetsModel.set_contains A arg inst item = SetsModel.set_contains B arg inst item) /\
+  (forall arg texts, SetsModel.set_filter A arg texts = SetsModel.set_filter B arg texts) /\ SetsModel.set_pre A = SetsModel.set_pre B.
+Proof. exact (SetsEqual.equal_text_sets_behave_alike a b p A B). Qed.
+Print Assumptions C10_equal_text_sets_match_alike.
+>>>>>>> 47387e70e6eafc025534b1f84c8dd6a9a5385115
